@@ -214,16 +214,24 @@ struct iauth_request *iauth_validate_request(const char routing[])
 {
     struct iauth_request *req;
     char *sep;
+    unsigned long ul_serial;
     unsigned int serial;
+    long l_id;
     int id;
 
-    /* Parse the routing tag. */
-    id = strtol(routing, &sep, 16);
+    /* Parse the routing tag.  Both parts were printed from 32-bit
+     * values; anything that does not fit names no request of ours.
+     */
+    l_id = strtol(routing, &sep, 16);
     if (sep[0] != '_')
         return NULL;
-    serial = strtoul(sep + 1, &sep, 16);
+    ul_serial = strtoul(sep + 1, &sep, 16);
     if (sep[0] != '\0')
         return NULL;
+    if (l_id < 0 || l_id > (long)UINT_MAX || ul_serial > UINT_MAX)
+        return NULL;
+    id = (int)(unsigned int)l_id;
+    serial = (unsigned int)ul_serial;
 
     /* Look up the client and check that it is the correct one. */
     req = set_find(iauth_reqs, &id);
